@@ -789,7 +789,14 @@ def _opener_problems(mod, call):
                 return '%s: the yielded stream %s is bound other than by plain assignments' % (f, v.id)
         else:
             vals = [v]
-        for x in vals:
+        flat = []
+        while vals:
+            x = vals.pop()
+            if isinstance(x, ast.IfExp):
+                vals += [x.body, x.orelse]
+            else:
+                flat.append(x)
+        for x in flat:
             if not (x is not None and (ast.unparse(x) == 'sys.stdout' or _is_open_w(x, pname))):
                 return '%s may hand out %s (line %d): neither sys.stdout nor open(%s, \'w\')' % (f, ast.unparse(x)[:40] if x is not None else 'None', y.lineno if x is None else x.lineno, pname)
     return ''
